@@ -340,11 +340,37 @@ fn case_wenc(out: &mut Out, f: Frame) {
     out.stat(&format!("wenc_{kind}"));
     let len = f.get_length().unwrap_or(0) as usize;
     let res = do_encode(f.clone());
+    // the write buffer a frame is encoded into is shared with the frames before and after it (FramedWrite keeps using
+    // it after an error): a refused frame must leave it as it was, an accepted one appends exactly its encoding
+    let residue = catch({
+        let f = f.clone();
+        move || {
+            let mut dst = BytesMut::from(&b"\xaa\xbb"[..]);
+            let r = MessageCodec.encode(f, &mut dst);
+            let after_first = dst.to_vec();
+            let r2 = MessageCodec.encode(Frame::Ok, &mut dst);
+            (r.is_ok(), after_first, r2.is_ok(), dst.to_vec())
+        }
+    });
+    let residue_check = |own: Option<&Vec<u8>>| -> Result<(), String> {
+        match &residue {
+            Err(p) => Err(format!("encode into a used buffer panicked: {p}")),
+            Ok((ok, after, ok2, fin)) => {
+                let mut want = vec![0xaa, 0xbb];
+                if let Some(b) = own { want.extend_from_slice(b); }
+                if *ok != own.is_some() { return Err("encode into a used buffer and into a fresh one disagree on whether the frame is accepted".into()); }
+                if *after != want { return Err(format!("after encode the write buffer holds {} bytes where {} are expected: a refused frame left bytes behind / an accepted frame is not appended as it is", after.len(), want.len())); }
+                want.extend_from_slice(&enc_ok(&Frame::Ok));
+                if !*ok2 || *fin != want { return Err("the frame encoded next into the same buffer is not what it is on its own".into()); }
+                Ok(())
+            }
+        }
+    };
     let (imp, mon) = match &res {
         Err(p) => ("PANIC".to_string(), Err(format!("encode panicked: {p}"))),
         Ok(Err(e)) => {
             out.stat("wenc_refused");
-            (format!("err {e}"), if len > MAX && e == "payload-too-large" { Ok(()) } else { Err(format!("encoder refused a {len}-byte payload with {e}")) })
+            (format!("err {e}"), if len > MAX && e == "payload-too-large" { residue_check(None) } else { Err(format!("encoder refused a {len}-byte payload with {e}")) })
         }
         Ok(Ok(b)) => {
             // monitor: limit, length prefix, exact round trip through the real decoder with trailing bytes
@@ -366,6 +392,7 @@ fn case_wenc(out: &mut Out, f: Frame) {
                     Err(p) => m = Err(format!("decoder panicked on the encoder's output: {p}")),
                 }
             }
+            if m.is_ok() { m = residue_check(Some(b)); }
             (format!("ok {}", hx(b)), m)
         }
     };
